@@ -319,6 +319,8 @@ class Prop:
             x = rng.random()
             if crowded and x < 0.25:
                 x = 0.0           # more announcements: destinations with several candidates
+            elif crowded and x > 0.90:
+                x = 0.95          # and more route refreshes (with the channel often empty)
             if x < 0.30:
                 ops.append(('ins', rng.randrange(nsrc), rng.randrange(nets), rng.randrange(4),
                             int(rng.random() < 0.12), int(rng.random() < 0.08)))
